@@ -4,6 +4,8 @@ package props
 
 import (
 	"fmt"
+	"os"
+	"path/filepath"
 	"strings"
 
 	"github.com/go-python/gpython/py"
@@ -35,6 +37,7 @@ var c08Programs = []c08prog{
 	{"vhlogown", "vh.log(('pre', TAG))\nimport vh as vh2\nvh2.log(('post', TAG))\n"},
 	{"closuregen", "def mk(n):\n    def g():\n        i = 0\n        while i < 2:\n            yield n + i\n            i = i + 1\n    return g\nvh.log(('pre', list(mk(TAG)())))\nvh.log(('post', sum(mk(TAG + 10)())))\n"},
 	{"typedict", "try:\n    vh.log(('pre', int.c08leak))\nexcept AttributeError:\n    vh.log(('pre', 'unset'))\ntry:\n    int.c08leak = TAG\n    vh.log(('post', 'set'))\nexcept (TypeError, AttributeError):\n    vh.log(('post', 'refused'))\n"},
+	{"filemodule", "import c08file\nvh.log(('pre', c08file.NAME, c08file.count))\nc08file.count = c08file.count + TAG\nimport c08file as again\nvh.log(('post', again.NAME, again.count))\n"},
 	{"environ", "import os\nvh.log(('pre', os.environ.get('C08_VAR', 'unset')))\nos.environ['C08_VAR'] = str(TAG)\nvh.log(('post', os.environ.get('C08_VAR')))\n"},
 }
 
@@ -84,8 +87,32 @@ func c08Scrub() {
 // ContextOpts (contexts created without search paths or arguments must be isolated too).
 var c08Opts = "set"
 
+// c08Dirs: one directory per tag, each holding its own c08file.py (same module name,
+// different contents): the search path of the context with that tag.
+var c08Root string
+
+func c08Dir(tag int) string {
+	if c08Root == "" {
+		d, err := os.MkdirTemp("", "verif-c08-")
+		if err != nil {
+			panic(err)
+		}
+		c08Root = d
+		for t := 1; t <= 3; t++ {
+			sub := filepath.Join(d, "t"+itoa(t))
+			if err := os.MkdirAll(sub, 0o755); err != nil {
+				panic(err)
+			}
+			if err := os.WriteFile(filepath.Join(sub, "c08file.py"), []byte("NAME = "+itoa(t*111)+"\ncount = "+itoa(t)+"\n"), 0o644); err != nil {
+				panic(err)
+			}
+		}
+	}
+	return filepath.Join(c08Root, "t"+itoa(tag))
+}
+
 func c08prepare(p c08prog, tag int) *c08run {
-	opts := py.ContextOpts{SysArgs: []string{"prog"}, SysPaths: []string{"."}}
+	opts := py.ContextOpts{SysArgs: []string{"prog"}, SysPaths: []string{c08Dir(tag)}}
 	if c08Opts == "empty" {
 		opts = py.ContextOpts{}
 	}
@@ -115,6 +142,12 @@ func (r *c08run) exec() string {
 }
 
 func c08Run(rc *core.RunCtx) {
+	defer func() {
+		if c08Root != "" {
+			os.RemoveAll(c08Root)
+			c08Root = ""
+		}
+	}()
 	P := c08Programs
 	// Expected log of program p with tag in a context nobody else can influence.
 	expect := func(p c08prog, tag int) string {
@@ -299,7 +332,8 @@ func c08ExpectedLog(p c08prog, tag int) string {
 		if c08Opts == "empty" {
 			return "('pre',[]);('post',['p" + t + "'])"
 		}
-		return "('pre',['.']);('post',['.','p" + t + "'])"
+		d := harness.CanonStr(c08Dir(tag))
+		return "('pre',[" + d + "]);('post',[" + d + ",'p" + t + "'])"
 	case "sysargv":
 		if c08Opts == "empty" {
 			// append makes the list ['<tag>'], then argv[0] is overwritten
@@ -327,6 +361,11 @@ func c08ExpectedLog(p c08prog, tag int) string {
 		return "('pre','unset');('post','set')|('pre','unset');('post','refused')"
 	case "environ":
 		return "('pre','unset');('post','" + t + "')"
+	case "filemodule":
+		if c08Opts == "empty" {
+			return " !ImportError" // no search path: the module cannot be found (and must not come from another context)
+		}
+		return "('pre'," + itoa(tag*111) + "," + t + ");('post'," + itoa(tag*111) + "," + itoa(2*tag) + ")"
 	}
 	return "?"
 }
@@ -337,7 +376,7 @@ func init() {
 		Level:    "model_checking",
 		Mode:     "ov",
 		RacePass: true,
-		Rule: "13 programs, each reading, mutating and re-reading one piece of state reachable from Python (module global, sys.path, sys.argv, a rebound builtin, attributes of a Go module, state of a source module registered once, class attribute, mutable default, the harness log, closures/generators, a built-in type's dict, os.environ), every context running a code object shared by all contexts. " +
+		Rule: "14 programs, each reading, mutating and re-reading one piece of state reachable from Python (module global, sys.path, sys.argv, a rebound builtin, attributes of a Go module, state of a source module registered once, class attribute, mutable default, the harness log, closures/generators, a built-in type's dict, os.environ, a source file module that every context finds under the same name on its own search path), every context running a code object shared by all contexts. " +
 			"(a) all ordered pairs (thorough: triples) run back to back in distinct contexts of one process; (b) all pairs on two goroutines under the cooperative scheduler with a scheduling point at every VM instruction, every schedule within the preemption bound. Oracle: each context's log equals the log the program produces in a context nothing else can influence. Every case is non-trivial.",
 		Run: c08Run,
 		Assumptions: []string{"the scheduler cannot preempt inside a Go builtin; transient shared state used within one builtin call is reachable only by the auxiliary -race pass",
